@@ -14,6 +14,7 @@ def verdict_view(R):
         "leak_sites": sorted(R["leak_sites"]),
         "finish": {k: (v["tok"], v["child"]) for k, v in sorted(R["finish_sites"].items())},
         "stolen": sorted(k for k, v in R["consume_sites"].items() if "R_BRACE" in v["stolen"]),
+        "after_stray": {k: sorted(v["after_stray"]) for k, v in sorted(R["consume_sites"].items()) if v["after_stray"]},
         "la_abs": R["la_abs"],
         "tails": {k: v["la"] for k, v in sorted(R["tails"].items())},
         "noprog_cycles": len(R["noprog_cycles"]),
@@ -26,8 +27,18 @@ def _ser(o):
     raise TypeError(type(o))
 
 
+def _engine_version():
+    import hashlib
+    h = hashlib.sha256()
+    here = os.path.dirname(os.path.abspath(__file__))
+    for n in ("pengine.py", "teval.py", "pcache.py", "facts.py"):
+        with open(os.path.join(here, n), "rb") as fh:
+            h.update(fh.read())
+    return h.hexdigest()[:10]
+
+
 def results(F, singletons=False):
-    path = os.path.join(F.dir, "pengine_singletons.json" if singletons else "pengine.json")
+    path = os.path.join(F.dir, "pengine%s-%s.json" % ("_singletons" if singletons else "", _engine_version()))
     if os.path.exists(path):
         try:
             with open(path) as fh:
